@@ -431,6 +431,8 @@ func (self *visitorUserNode) OnObjectBegin(capacity int) error {
 				return err
 			}
 		}
+		// the container is on the stack now; an empty one ({}) must not be closed as a scalar value
+		self.globalFieldDesc = nil
 	}
 	return err
 }
@@ -608,6 +610,8 @@ func (self *visitorUserNode) OnArrayBegin(capacity int) error {
 		if err = self.push(false, false, true, self.globalFieldDesc, curNodeLenPos); err != nil {
 			return err
 		}
+		// the list is on the stack now; an empty one ([]) must not be closed as a scalar value
+		self.globalFieldDesc = nil
 	}
 	return err
 }
@@ -643,7 +647,9 @@ func (self *visitorUserNode) onValueEnd() error {
 		// basic Type belong to MapValue
 		// rewrite pairlen in one kv-item of map
 		if top.typ == mapStkType {
-			self.p.Buf = binary.FinishSpeculativeLength(self.p.Buf, top.state.lenPos)
+			if top.state.lenPos != -1 {
+				self.p.Buf = binary.FinishSpeculativeLength(self.p.Buf, top.state.lenPos)
+			}
 			self.pop()
 		}
 		return nil
@@ -655,7 +661,9 @@ func (self *visitorUserNode) onValueEnd() error {
 		// Message belong to Map<int, Message>、Message{Message}
 		ntop := self.stk[self.sp]
 		if ntop.typ == mapStkType {
-			self.p.Buf = binary.FinishSpeculativeLength(self.p.Buf, ntop.state.lenPos)
+			if ntop.state.lenPos != -1 {
+				self.p.Buf = binary.FinishSpeculativeLength(self.p.Buf, ntop.state.lenPos)
+			}
 			self.pop()
 		}
 	} else if top.typ == arrStkType {
